@@ -9,6 +9,7 @@ import (
 	_ "github.com/crossplane/crossplane/verifsim/props/c03"
 	_ "github.com/crossplane/crossplane/verifsim/props/c06"
 	_ "github.com/crossplane/crossplane/verifsim/props/c08"
+	_ "github.com/crossplane/crossplane/verifsim/props/c09"
 	_ "github.com/crossplane/crossplane/verifsim/props/c12"
 	_ "github.com/crossplane/crossplane/verifsim/props/c13"
 	_ "github.com/crossplane/crossplane/verifsim/props/c14"
